@@ -20,7 +20,7 @@ using namespace tbb::detail::r1;
 extern "C" void vp_noslot(int tid);                         // observer: arena saturated (execute would enqueue a delegated task)
 extern "C" void vp_occupied(int tid, unsigned long idx);    // observer: occupy_free_slot returned idx
 extern "C" void vp_body(int tid, unsigned long idx);        // observer: the user functor runs (between ctor and dtor of the scope)
-extern "C" void vp_left(int tid);                           // observer: the scope's destructor returned
+extern "C" void vp_returned(int tid);                           // observer: the scope's destructor returned
 
 extern "C" {
 // one model thread: task_arena_impl::execute for a thread that belongs to another arena (same_arena == false)
@@ -32,7 +32,7 @@ void vp_thr_exec(arena* a, thread_data* td, int tid) {
     nested_arena_context scope(*td, *a, index1);
     vp_body(tid, td->my_arena_index);                       // d();
   }
-  vp_left(tid);
+  vp_returned(tid);
 }
 
 // ---- sequential set-up / inspection
